@@ -118,6 +118,12 @@ def solve_frames(tdgl, a, tmp):
         tempfile.tempdir = work
         dev = build_device(tdgl, a)
         kw = drive(tdgl, a)
+        for pre in a.get("prelude", []):
+            # history of the process: OTHER simulations run first on the same device / mesh object (and copies of
+            # it); nothing of them may leak into the observed run
+            pa = dict(a, **pre)
+            pdev = dev.copy() if pre.get("on_copy") else dev
+            tdgl.solve(pdev, options(tdgl, pa, os.path.join(work, f"prelude{len(os.listdir(work))}.h5")), **drive(tdgl, pa))
         pieces = a.get("split") or [a["solve_time"]]
         seed = None
         offset = 0
